@@ -372,6 +372,9 @@ func (f *frame) execInstr(b *ssa.BasicBlock, instr ssa.Instruction, st *State) {
 			f.setVal(in, Val{T: ref, Typ: in.Type()})
 		} else {
 			f.zeroInitObj(st, ref, et)
+			if nt, ok := et.(*types.Named); ok && nt.Obj().Pkg() != nil && nt.Obj().Pkg().Path() == "strings" && nt.Obj().Name() == "Builder" {
+				c.assume(st, fmt.Sprintf("(= (select %s %s) str_empty)", st.Heap(sbHeap(g)), ref))
+			}
 			f.setVal(in, f.mkVal(ref, in.Type()))
 		}
 		if in.Comment != "" && in.Comment != "complit" && in.Comment != "varargs" && in.Comment != "slicelit" && in.Comment != "makeslice" && in.Comment != "new" {
